@@ -1728,7 +1728,7 @@ def C10(tier, seed):
         transitions += g["transitions"]
         nall = len(reps)
         rng = random.Random(seed)
-        lim = 5000 if tier == "quick" else 120000
+        lim = 5000 if tier == "quick" else 60000
         if nall > lim:
             rng.shuffle(reps)
             reps = reps[:lim]
@@ -1757,7 +1757,7 @@ def C10(tier, seed):
             scens.append({"sc": len(scens) + 1, "cfg": c, "t0": 1000, "steps": steps, "origin": "tlc:MCRobust", "obs": "sync",
                           "tag": {"dirc": mc["dirc"], "fmtc": mc["fmtc"], "ops": "+".join(x["steps"])}})
         # execute shard-wise with hang restart
-        nsh = 10
+        nsh = 10 if tier == "quick" else 40
         shards = C.shard(scens, nsh)
 
         def one(i):
@@ -1806,7 +1806,7 @@ def C10(tier, seed):
             b, cts, consumed, nl = C.judge("MonC10", tf, os.path.join(wd, f"meta-{i}"))
             return nsc, nev, b, cts, tf
 
-        with ThreadPoolExecutor(max_workers=nsh) as ex:
+        with ThreadPoolExecutor(max_workers=10) as ex:
             results = list(ex.map(one, range(len(shards))))
         bads, counts, events, nsc, traces = [], [], 0, 0, []
         for (a, b_, c_, d_, tf) in results:
